@@ -1751,6 +1751,7 @@ func vsScenario(rt *rapid.T, c *vlib.Case, t *testing.T, cfg vsConfig, open map[
 	c.LabelIf(r.mergeFaults > 0, "merges-made-to-fail")
 	c.LabelIf(r.brokenFiles > 0, "broken-upload-queued")
 	c.LabelIf(r.tr.Fat, "fat-flow")
+	c.LabelIf(r.tr.Fragmented > 0, "ipv4-fragments")
 	c.LabelIf(r.lazyViews > 0, "view-first-asked-after-later-events")
 	c.LabelIf(r.snapFaults > 0, "import-with-unusable-snapshot-directory")
 	nontrivial := false
